@@ -197,14 +197,31 @@ def run_check(prop, tier, seed):
     open_known = [k for k in known if k.get("status") == "open"]
     new_viol = []
     known_hits = {}
+    # corpus of minimised past violations (witnesses of fixed defects): replayed first, every run
+    corpus_path = os.path.join(ROOT, "corpus", f"{pid}.json")
+    corpus_n = 0
+    if os.path.exists(corpus_path):
+        for item in json.load(open(corpus_path)):
+            corpus_n += 1
+            try:
+                rr = prop.replay(item["witness"])
+            except Exception as e:  # noqa
+                rr = {"fails": True, "detail": "replay raised " + repr(e)}
+            if rr.get("fails"):
+                orc["violations"].insert(0, {**item["witness"], "clause": item.get("clause"), "signature": item["signature"],
+                                             "observed": rr.get("detail"), "expected": "the recorded witness of a repaired defect passes",
+                                             "from_corpus": True})
+    orc["evaluations"] += corpus_n
     for v in orc["violations"]:
-        match = next((k for k in open_known if k["signature"] == v.get("signature")), None)
+        match = next((k for k in open_known if v.get("signature") in k.get("signatures", [k.get("signature")])), None)
         if match:
             known_hits.setdefault(match["key"], match)
         else:
             new_viol.append(v)
     for k in open_known:
         if k["key"] in known_hits:
+            continue
+        if "witness" not in k:
             continue
         try:
             still = prop.replay(k["witness"])
@@ -219,7 +236,7 @@ def run_check(prop, tier, seed):
     for r in tie:
         for d in r["disagreements"]:
             sig = getattr(prop, "tie_signature", lambda comp, d: None)(r["component"], d)
-            if sig and any(k["signature"] == sig for k in open_known):
+            if sig and any(sig in k.get("signatures", [k.get("signature")]) for k in open_known):
                 continue
             unexplained_tie.append((r, d))
     tie_ok = not unexplained_tie
@@ -227,7 +244,8 @@ def run_check(prop, tier, seed):
     status = 0
     if new_viol:
         v = new_viol[0]
-        path = write_replay(pid, {"property": pid, "kind": "counterexample", **v,
+        v = {("case_kind" if k == "kind" else k): x for k, x in v.items()}
+        path = write_replay(pid, {**v, "property": pid, "kind": "counterexample",
                                   "how_to_run": f"./check {pid} --replay <this file>"})
         out_lines.append(f"VIOLATION property={pid} replay={path}")
         status = 1
@@ -279,6 +297,7 @@ def run_check(prop, tier, seed):
             "oracle": {k: orc[k] for k in ("evaluations", "distinct_nontrivial") if k in orc},
             "distribution": {**dist, **{f"oracle:{k}": v for k, v in orc.get("distribution", {}).items()}},
             "known_findings_reported": sorted(known_hits),
+            "corpus_witnesses_replayed": corpus_n,
             "partial": getattr(prop, "PARTIAL", ""),
         },
         "assumptions": list(getattr(prop, "ASSUMPTIONS", [])),
